@@ -708,6 +708,16 @@ def call_sym_method(interp, recv, name, args, kwargs):
         return strings.call_method(interp, recv, name, args, kwargs)
     if isinstance(recv, SList):
         return slist_method(interp, recv, name, args, kwargs)
+    if isinstance(recv, SMap):
+        if name in ('copy', 'get', 'pop'):
+            return getattr(recv, name)(interp, *args)
+        if name == '__contains__':
+            return recv.contains(interp, args[0])
+        if name == '__getitem__':
+            return recv.getitem(interp, args[0])
+        if name == '__setitem__':
+            return recv.setitem(interp, args[0], args[1])
+        raise Unsupported('method %s on a symbolic map' % name)
     if isinstance(recv, SInt):
         if name == 'bit_length':
             raise Unsupported('bit_length')
@@ -816,53 +826,104 @@ class SEnumerate:
 
 
 class SMap:
-    """Symbolic finite map (dict view): z3 arrays ``has: K -> Bool`` and ``val: K -> V``."""
+    """Symbolic finite map (dict view): z3 arrays ``has: K -> Bool`` and ``val: K -> V``.
+    Keys are ints/strings, or opaque objects whose interface names the attribute that decides their
+    equality (``map_key = 'ident'``: the model of ``__eq__``/``__hash__``).  With ``val is None`` the
+    values are not tracked: a read gives an arbitrary value of shape ``vty``."""
 
-    def __init__(self, ksort, vsort, has, val, uid, vwrap=None):
+    def __init__(self, ksort, vsort, has, val, uid, vwrap=None, vty=None):
         self.ksort = ksort
         self.vsort = vsort
         self.has = has
         self.val = val
         self.uid = uid
+        self.vty = vty
+
+    def key(self, interp, k):
+        if isinstance(k, (SOpt, SChoice)):
+            k = interp.resolve(k)
+        if isinstance(k, Opaque):
+            attr = getattr(k._pv_iface, 'map_key', None)
+            if attr is None:
+                raise Unsupported('opaque object used as a key of a symbolic map: its interface has no map_key')
+            k = interp.getattr(k, attr)
+        if not isinstance(k, (SInt, SStr, int, str)) or isinstance(k, bool):
+            raise Unsupported('key of a symbolic map: %r' % (k,))
+        return to_z3(k)
+
+    def _read(self, interp, kt):
+        if self.val is not None:
+            return wrap(z3.Select(self.val, kt))
+        if self.vty is not None:
+            return self.vty.make(interp, self.uid + '[]')
+        return OpaqueVal(interp.st.fresh_name(self.uid + '[]'))
 
     def copy(self, interp):
-        return SMap(self.ksort, self.vsort, self.has, self.val, interp.st.fresh_name(self.uid + '.copy'))
+        return SMap(self.ksort, self.vsort, self.has, self.val, interp.st.fresh_name(self.uid + '.copy'),
+                    vty=self.vty)
 
     def contains(self, interp, k):
-        return wrap(z3.Select(self.has, to_z3(k)))
+        return wrap(z3.Select(self.has, self.key(interp, k)))
+
+    __contains__ = None
 
     def getitem(self, interp, k):
-        kt = to_z3(k)
+        kt = self.key(interp, k)
         if not interp.st.fork(wrap(z3.Select(self.has, kt))):
-            raise _pyraise(KeyError(k if not isinstance(k, Sym) else '<symbolic>'))
-        return wrap(z3.Select(self.val, kt))
+            raise _pyraise(KeyError(k if not isinstance(k, (Sym, Opaque)) else '<symbolic>'))
+        return self._read(interp, kt)
 
     def get(self, interp, k, default=None):
-        kt = to_z3(k)
+        kt = self.key(interp, k)
         if interp.st.fork(wrap(z3.Select(self.has, kt))):
-            return wrap(z3.Select(self.val, kt))
+            return self._read(interp, kt)
         return default
 
     def setitem(self, interp, k, v):
-        kt = to_z3(k)
+        kt = self.key(interp, k)
         self.has = z3.Store(self.has, kt, z3.BoolVal(True))
-        self.val = z3.Store(self.val, kt, to_z3(v))
+        if self.val is not None:
+            self.val = z3.Store(self.val, kt, to_z3(v))
 
     def delitem(self, interp, k):
-        kt = to_z3(k)
+        kt = self.key(interp, k)
         if not interp.st.fork(wrap(z3.Select(self.has, kt))):
             raise _pyraise(KeyError('<symbolic>'))
         self.has = z3.Store(self.has, kt, z3.BoolVal(False))
 
     def pop(self, interp, k, *default):
-        kt = to_z3(k)
+        kt = self.key(interp, k)
         if interp.st.fork(wrap(z3.Select(self.has, kt))):
-            v = wrap(z3.Select(self.val, kt))
+            v = self._read(interp, kt)
             self.has = z3.Store(self.has, kt, z3.BoolVal(False))
             return v
         if default:
             return default[0]
         raise _pyraise(KeyError('<symbolic>'))
+
+
+def smap_of_dict(interp, d, first_key, uid='dict'):
+    """A dict display / dict with a symbolic key: as a symbolic map with untracked values."""
+    def sort_of(k):
+        if isinstance(k, (SOpt, SChoice)):
+            k = interp.resolve(k)
+        if isinstance(k, Opaque):
+            attr = getattr(k._pv_iface, 'map_key', None)
+            if attr is None:
+                raise Unsupported('dict with an opaque key whose interface has no map_key')
+            k = interp.getattr(k, attr)
+        if isinstance(k, (SStr, str)):
+            return z3.StringSort()
+        if isinstance(k, (SInt, int)) and not isinstance(k, bool):
+            return z3.IntSort()
+        raise Unsupported('dict with symbolic key %r' % (k,))
+
+    ks = sort_of(first_key)
+    name = interp.st.fresh_name(uid)
+    m = SMap(ks, None, z3.K(ks, z3.BoolVal(False)), None, name)
+    for k, v in d.items():
+        m.setitem(interp, k, v)
+    return m
 
 
 # ============================================================================ quantifiers (spec level)
@@ -1029,6 +1090,19 @@ def q_nat_of_str(interp, args, kwargs):
     if not isinstance(s, SStr):
         raise Unsupported('nat_of_str of a non-string')
     return wrap(z3.StrToInt(s.t))
+
+
+def q_keys_subset(interp, args, kwargs):
+    a, b = args
+    if isinstance(a, dict) and isinstance(b, dict):
+        return all(k in b for k in a)
+    if isinstance(a, dict) and isinstance(b, SMap):
+        parts = [to_z3(b.contains(interp, k)) for k in a]
+        return wrap(z3.And(*parts)) if parts else True
+    if not (isinstance(a, SMap) and isinstance(b, SMap)):
+        raise Unsupported('keys_subset of %r, %r' % (type(a).__name__, type(b).__name__))
+    y = z3.Const(interp.st.fresh_name('key'), a.ksort)
+    return wrap(z3.ForAll([y], z3.Implies(z3.Select(a.has, y), z3.Select(b.has, y))))
 
 
 def m_is_opaque(interp, args, kwargs):
